@@ -3,6 +3,7 @@
 package c19
 
 import (
+	"container/list"
 	"errors"
 	"fmt"
 	"os"
@@ -60,6 +61,20 @@ func FPtr(p *Node, q *int, e error, i interface{}) (*Node, error, interface{}) {
 
 //go:noinline
 func FHid(h hidden, hp *hidden) hidden { return hidden{} }
+
+type Ring struct {
+	Next, Prev *Ring
+	V          int
+}
+
+var ring2 = func() *Ring { a, b := &Ring{}, &Ring{}; a.Next, a.Prev, b.Next, b.Prev = b, b, a, a; return a }()
+var lst = func() *list.List { l := list.New(); l.PushBack(nil); l.PushBack(nil); return l }()
+
+//go:noinline
+func FRing(r *Ring, l *list.List, e *list.Element) (*Ring, *list.List) { return nil, nil }
+
+//go:noinline
+func FRing2() (*Ring, *list.List) { return nil, nil }
 
 //go:noinline
 func FBad(b BadStringer, e error, n *NilRecv) (BadStringer, error, *NilRecv) {
@@ -197,6 +212,28 @@ func TestC19(t *testing.T) {
 			rec("FPtr stubbed -> %v %v %v", p == nil, e != nil, i != nil)
 		})
 		b.Reset()
+		// configuration and calls issued from frames whose file name has no directory (//line directives)
+		try("generated-code frames", func() {
+			bg := mocker.Create()
+			applyFromGenerated(bg, k)
+			rec("generated frame -> %d", callFromGenerated(k))
+			resetFromGenerated(bg)
+			rec("generated frame after reset -> %d", callFromGenerated(1))
+		})
+		// cyclic structures whose emptiness can only be decided by walking pointers (rings, intrusive lists)
+		try("cyclic all-pointer structures", func() {
+			bc := mocker.Create()
+			defer bc.Reset()
+			bc.Func(FRing).Apply(func(r *Ring, l *list.List, e *list.Element) (*Ring, *list.List) {
+				rec("cb FRing %v %d", r != nil, l.Len())
+				return r, l
+			})
+			r1, l1 := FRing(ring2, lst, lst.Front())
+			rec("FRing -> %v %v", r1 == ring2, l1 == lst)
+			bc.Func(FRing2).Return(ring2, lst)
+			r2, l2 := FRing2()
+			rec("FRing2 stubbed -> %v %v", r2 == ring2, l2 == lst)
+		})
 		// conditional + sequenced stubs
 		b = mocker.Create()
 		try("stubs F1", func() {
